@@ -365,7 +365,7 @@ def _find_witness(run, case, pctx, name, lhs, rhs, model, revars, mono, rng):
     return False, last
 
 
-def decide_path(run, case, pctx, obs, role, vacuity=True, revars=None, split=True):
+def decide_path(run, case, pctx, obs, role, vacuity=True, revars=None, split=True, tol=None):
     """Decides all obligations of one path. obs: list of (name, lhs IR|None, rhs IR).
     Returns 'infeasible' | number of failed obligations."""
     import random
@@ -449,7 +449,11 @@ def decide_path(run, case, pctx, obs, role, vacuity=True, revars=None, split=Tru
             continue
         nontrivial = True
         s.push()
-        s.add(z3.Not(ir.q_eq_normalised(l, r)))
+        if tol is None:
+            s.add(z3.Not(ir.q_eq_normalised(l, r)))
+        else:
+            tq = ir.Q(z3.Q(tol.numerator, tol.denominator))
+            s.add(z3.Or(ir.q_lt(tq, ir.q_add(l, r, -1)), ir.q_lt(tq, ir.q_add(r, l, -1))))
         res = run.check(s)
         model = s.model() if res == z3.sat else None
         s.pop()
